@@ -65,6 +65,12 @@ ShortKeys == {JoinDot(ss) : ss \in UNION {[1..k -> Segs] : k \in 1..2}}
 DotKeys == {k \o <<46>> : k \in ShortKeys} \cup {<<46>> \o k : k \in ShortKeys}
            \cup {a \o <<46, 46>> \o b : a \in Segs, b \in Segs}
 EmptySegMissing == \A k \in DotKeys : CheckablePath(k) /\ IsNone(Find(Doc, k)) /\ IsNone(EngFind(Doc, k, {}))
+(* keys whose index is not a number: `a[]`, `a[x]`, `a[*].b`, `b.a[-1]` *)
+BadIdx == {<<>>, <<120>>, <<42>>, <<45, 49>>}
+IdxKeys == {KA \o <<91>> \o t \o <<93>> : t \in BadIdx}
+           \cup {KA \o <<91>> \o t \o <<93, 46>> \o KB : t \in BadIdx}
+           \cup {KB \o <<46>> \o KA \o <<91>> \o t \o <<93>> : t \in BadIdx}
+BadIndexMissing == \A k \in IdxKeys : CheckablePath(k) /\ IsNone(Find(Doc, k)) /\ IsNone(EngFind(Doc, k, {}))
 
 KnownDeviation(k) == "find_restarts_at_root" \in Dev
 WalkIsFind == \A k \in Keys : WellFormedPath(k) /\ (EngFind(Doc, k, Dev) = Find(Doc, k) \/ KnownDeviation(k))
@@ -73,5 +79,5 @@ IdealWalkIsFind == \A k \in Keys : EngFind(Doc, k, {}) = Find(Doc, k)
 
 Emit == pc = "done" =>
   PrintT("REPLAY " \o ToJson([topic |-> "C10", run |-> "find", form |-> "doc",
-                               doc |-> Doc, keys |-> SetSeq(Keys) \o SetSeq(DotKeys)]))
+                               doc |-> Doc, keys |-> SetSeq(Keys) \o SetSeq(DotKeys) \o SetSeq(IdxKeys)]))
 =============================================================================
